@@ -334,12 +334,43 @@ int main()
 			}
 			puts(out.c_str());
 		}
-		else if (cmd == "tp4")
+		else if (cmd == "tone")
+		{	// real HashSet<.., HashBucketOne<>>: 2^L buckets, keys 1..n, removals, Reserve to 2^L1; dump mHashState / key of every used bucket
+			typedef TraitsL<HashBucketOne<>> Traits;
+			typedef HashSet<uint64_t, Traits> Set;
+			ull L, L1, nrem, h; is >> L >> L1 >> nrem;
+			std::vector<ull> rem; for (ull k = 0; k < nrem; ++k) { is >> h; rem.push_back(h); }
+			g_mode = 9; g_table.assign(1, 0); while (is >> h) g_table.push_back(h);
+			g_throwBudget = -1;
+			Set set{Traits(size_t(L))};
+			bool bad = false;
+			for (ull k = 1; k < g_table.size() && !bad; ++k) { set.Insert(k); if (set.mBuckets->GetLogCount() != L) bad = true; }
+			if (bad) { puts("grew-early"); continue; }
+			for (ull k : rem) set.Remove(k);
+			Traits t; ull before = g_hashCalls;
+			set.Reserve(t.CalcCapacity(size_t(1) << L1, 1));
+			ull calls = g_hashCalls - before;
+			auto& bks = *set.mBuckets;
+			if (bks.GetLogCount() != L1 || bks.GetNextBuckets() != nullptr) { puts("unexpected-size"); continue; }
+			std::string out = "calls=" + std::to_string(calls) + " ";
+			for (size_t i = 0; i < bks.GetCount(); ++i)
+			{
+				auto& b = bks[i];
+				if (b.mHashState == 0) continue;
+				out += std::to_string(i) + ":" + std::to_string(b.mHashState) + (b.WasFull() ? "W" : "w");
+				if (b.IsFull()) out += "," + std::to_string(*&b.mItemBuffer);
+				out += ";";
+			}
+			puts(out.c_str());
+		}
+		else if (cmd == "tp4" || cmd == "tp4c")
 		{	// real HashSet<.., HashBucketLimP4<>>: 2^L buckets, keys 1..n, removals, Reserve to 2^L1; dump layout incl. memPoolIndex (WasFull)
 			typedef TraitsL<HashBucketLimP4<>> Traits;
 			typedef HashSet<uint64_t, Traits> Set;
 			typedef Set::Bucket B;
-			ull hc, L, L1, nrem, h; is >> hc >> L >> L1 >> nrem;
+			ull hc, L, L1, L2 = 0, nrem, h; long long budget = -1; is >> hc >> L >> L1;
+			if (cmd == "tp4c") is >> L2 >> budget;
+			is >> nrem;
 			if (hc != B::hashCount) { puts("wrong-build"); continue; }
 			std::vector<ull> rem; for (ull k = 0; k < nrem; ++k) { is >> h; rem.push_back(h); }
 			g_mode = 9; g_table.assign(1, 0); while (is >> h) g_table.push_back(h);
@@ -350,11 +381,14 @@ int main()
 			if (bad) { puts("grew-early"); continue; }
 			for (ull k : rem) set.Remove(k);
 			Traits t; ull before = g_hashCalls;
-			set.Reserve(t.CalcCapacity(size_t(1) << L1, 4));
+			g_throwBudget = long(budget); set.Reserve(t.CalcCapacity(size_t(1) << L1, 4)); g_throwBudget = -1;
+			size_t gens1 = 0; for (auto* bk = set.mBuckets; bk != nullptr; bk = bk->GetNextBuckets()) ++gens1;
+			ull finalL = L1;
+			if (L2 > 0) { set.Reserve(t.CalcCapacity(size_t(1) << L2, 4)); finalL = L2; }
 			ull calls = g_hashCalls - before;
 			auto& bks = *set.mBuckets;
-			if (bks.GetLogCount() != L1 || bks.GetNextBuckets() != nullptr) { puts("unexpected-size"); continue; }
-			std::string out = "calls=" + std::to_string(calls) + " min=" + std::to_string(B::minMemPoolIndex) + " ";
+			if (bks.GetLogCount() != finalL || (L2 > 0 && bks.GetNextBuckets() != nullptr)) { puts("unexpected-size"); continue; }
+			std::string out = "calls=" + std::to_string(calls) + " gens=" + std::to_string(gens1) + " min=" + std::to_string(B::minMemPoolIndex) + " ";
 			for (size_t i = 0; i < bks.GetCount(); ++i)
 			{
 				auto& b = bks[i]; size_t c = b.pvGetCount(); size_t mpi = b.pvGetMemPoolIndex();
